@@ -325,6 +325,9 @@ where
                     self.transition(excluded, Event::Signal);
                 }
             }
+            // at most one round of signals per call: a signal raised while
+            // answering must not leak into the next call
+            self.signal_pending = None;
         }
 
         // only return actions, no None
